@@ -59,7 +59,7 @@ class ZooModel(Model):
         else:
             self.b_calls += 1
             self.b_points += n
-        inb = self.in_bounds(x)
+        inb = self.ref_in_bounds(x)
         if not np.all(inb):
             self.b_oob += int(np.sum(~np.atleast_1d(inb)))
             if len(self.b_oob_examples) < 3:
@@ -81,6 +81,14 @@ class ZooModel(Model):
             time.sleep(h * 1e-6)
         if self.kill_at is not None and not probe and self.b_points >= self.kill_at:
             os._exit(9)
+
+    def ref_in_bounds(self, x):
+        """The monitors' own bounds test, parameter by parameter *by name* (independent of nessai's Model.in_bounds, which the user-side priors call)."""
+        ok = True
+        for n in self.names:
+            lo, hi = self.bounds[n]
+            ok = ok & (x[n] >= lo) & (x[n] <= hi)
+        return ok
 
     # ---- hypercube maps for a uniform box --------------------------------------------------------
     def to_unit_hypercube(self, x):
@@ -224,6 +232,16 @@ class GaussHardCut(GaussU):
         m0, v0 = truncnorm.stats(0.5, hi, moments="mv")
         m1, v1 = truncnorm.stats(-2.0, 2.0, moments="mv")
         return {"x0": (float(m0), float(v0)), "x1": (float(m1), float(v1))}
+
+
+class GaussAsymReordered(GaussAsym):
+    """GaussAsym whose bounds dictionary lists the parameters in another order than names (both are keyed by name, so this is legitimate)."""
+
+    def __init__(self):
+        super().__init__()
+        self.bounds = {k: self.bounds[k] for k in reversed(list(self.bounds))}
+        # posterior pressed against the upper bound of x1 (3.5), where the *other* parameter's range (up to 6) would still allow points
+        self.mu = np.array([1.2, 3.0])
 
 
 class GaussTN(ZooModel):
@@ -532,6 +550,8 @@ def make(name, **kw):
         return GaussFlat(2, **kw)
     if name == "G2a":
         return GaussAsym(**kw)
+    if name == "G2ar":
+        return GaussAsymReordered(**kw)
     if name == "G2h":
         return GaussHardCut(2, **kw)
     if name == "G2o":
